@@ -57,6 +57,8 @@ def base_registry():
                      ensures={'value': 'be(result) == n',
                               'minimal': 'blocksize == 0 ==> (len(result) >= 1 and (n == 0 ==> result == bytes(1)) and (n > 0 ==> result[0] != 0))',
                               'blocks': 'blocksize > 0 ==> (len(result) % blocksize == 0 and len(result) >= 1)',
-                              'one_block': '(blocksize > 0 and n < pow2(8 * blocksize)) ==> result == i2osp(n, blocksize)'},
+                              'one_block': '(blocksize > 0 and n < pow2(8 * blocksize)) ==> result == i2osp(n, blocksize)',
+                              'short': 'blocksize == 0 ==> ((n < 256 ==> len(result) == 1) and (n < 65536 ==> len(result) <= 2) and '
+                                       '(n < 2 ** 32 ==> len(result) <= 4) and (n < 2 ** 64 ==> len(result) <= 8) and (n >= 256 ==> len(result) >= 2))'},
                      pure=True, assumed='bounded: bounded/number.py against int.to_bytes'))
     return reg
